@@ -106,7 +106,7 @@ func (s *Store) GetMessage(mailbox, id string) (m storage.Message, err error) {
 		}
 		count := len(ms)
 		if count == 0 {
-			return nil, nil
+			return nil, storage.ErrNotExist
 		}
 		return ms[count-1], nil
 	}
@@ -115,6 +115,7 @@ func (s *Store) GetMessage(mailbox, id string) (m storage.Message, err error) {
 		m, ok = mb.messages[id]
 		if !ok {
 			m = nil
+			err = storage.ErrNotExist
 		}
 	})
 	return m, err
@@ -136,13 +137,15 @@ func (s *Store) GetMessages(mailbox string) (ms []storage.Message, err error) {
 
 // MarkSeen marks a message as having been read.
 func (s *Store) MarkSeen(mailbox, id string) error {
+	err := storage.ErrNotExist
 	s.withMailbox(mailbox, true, func(mb *mbox) {
 		m := mb.messages[id]
 		if m != nil {
 			m.seen = true
+			err = nil
 		}
 	})
-	return nil
+	return err
 }
 
 // PurgeMessages deletes the contents of a mailbox.
@@ -192,9 +195,10 @@ func (s *Store) removeMessage(mailbox, id string) *Message {
 func (s *Store) RemoveMessage(mailbox, id string) error {
 	m := s.removeMessage(mailbox, id)
 	verifhook.Yield("mem.remove.removed " + mailbox + "/" + id)
-	if m != nil {
-		s.enforcerRemove(m)
+	if m == nil {
+		return storage.ErrNotExist
 	}
+	s.enforcerRemove(m)
 	return nil
 }
 
